@@ -146,6 +146,13 @@ func c32ErrClass(err error) string {
 
 // c32Extract turns a frame returned by ReadFrame into the reference representation.
 func c32Extract(f Frame) (g c32Frame, gotype string) {
+	if p, v := vk.Guard(func() { g, gotype = c32ExtractRaw(f) }); p {
+		return c32Frame{}, "PANIC " + v
+	}
+	return
+}
+
+func c32ExtractRaw(f Frame) (g c32Frame, gotype string) {
 	fh := f.Header()
 	g = c32Frame{Type: byte(fh.Type), Flags: byte(fh.Flags), Stream: fh.StreamID, Length: fh.Length}
 	switch f := f.(type) {
@@ -257,6 +264,16 @@ func c32Class(f *c32Frame, opener byte) string {
 // the reference accepts (the Write* parameters, or the reference decoding for raw frames).
 // It returns true when judging of this stream must stop.
 func (h *c32H) judge(idf func() string, i int, opener byte, want *c32Frame, rule string, f Frame, err error) (stop bool) {
+	var got c32Frame
+	gotype := ""
+	if err == nil {
+		// reading includes using the accessors of the frame that was returned
+		got, gotype = c32Extract(f)
+		if strings.HasPrefix(gotype, "PANIC ") {
+			h.panicked(idf, "frame-accessor", gotype[6:])
+			return true
+		}
+	}
 	if rule != "" {
 		if err != nil {
 			h.outcome("rejected:" + rule)
@@ -272,9 +289,8 @@ func (h *c32H) judge(idf func() string, i int, opener byte, want *c32Frame, rule
 				}
 			}
 		}
-		g, _ := c32Extract(f)
 		h.r.Violation("enforce:"+rule+":accepted", idf(),
-			fmt.Sprintf("frame #%d violates RFC 7540 rule %q but ReadFrame returned it without error: %s", i, rule, c32Show(&g)))
+			fmt.Sprintf("frame #%d violates RFC 7540 rule %q but ReadFrame returned it without error: %s", i, rule, c32Show(&got)))
 		return true
 	}
 	tn := c32TypeName(want.Type)
@@ -283,7 +299,6 @@ func (h *c32H) judge(idf func() string, i int, opener byte, want *c32Frame, rule
 			fmt.Sprintf("frame #%d %s is valid per RFC 7540 (a frame the Framer itself writes) but ReadFrame returned %s: %v", i, c32Show(want), c32ErrClass(err), err))
 		return true
 	}
-	got, gotype := c32Extract(f)
 	if gotype != tn {
 		h.r.Violation("roundtrip:"+tn+":go-type:mismatch", idf(), fmt.Sprintf("frame #%d: ReadFrame returned a %s frame object for %s", i, gotype, c32Show(want)))
 		return true
